@@ -1148,6 +1148,48 @@ func scBPop(n *nodis.Nodis, r *rand.Rand, rounds int) string {
 		n.Del(key)
 		tick()
 	}
+	// (c') several clients wait with long timeouts on one key: a push of several elements, and
+	// several pushes in a row, serve all of them without undue delay
+	for round := 0; round < rounds; round++ {
+		for _, multi := range []bool{true, false} {
+			key := fmt.Sprintf("bm%d%v", round, multi)
+			const waiters = 3
+			got := make(chan string, waiters)
+			for w := 0; w < waiters; w++ {
+				go func(w int) {
+					var v []byte
+					if w%2 == 0 {
+						_, v = n.BLPop(6*time.Second, key)
+					} else {
+						_, v = n.BRPop(6*time.Second, "otherkey"+key, key)
+					}
+					got <- string(v)
+				}(w)
+			}
+			time.Sleep(time.Duration(30+r.Intn(40)) * time.Millisecond)
+			if multi {
+				n.RPush(key, []byte("a"), []byte("b"), []byte("c"))
+			} else {
+				n.RPush(key, []byte("a"))
+				n.LPush(key, []byte("b"))
+				n.RPush(key, []byte("c"))
+			}
+			pushed := time.Now()
+			seen := map[string]bool{}
+			for w := 0; w < waiters; w++ {
+				select {
+				case v := <-got:
+					if v == "" || seen[v] {
+						return fmt.Sprintf("FAIL with %d clients blocked on a key and 3 elements pushed, a client got %q (empty = null before its timeout, or an element twice)", waiters, v)
+					}
+					seen[v] = true
+				case <-time.After(2 * time.Second):
+					return fmt.Sprintf("FAIL %d clients were blocked on a key (timeout 6 s); 3 elements were pushed (one push of three: %v); %v after the push only %d clients had been served and %d elements were still in the list", waiters, multi, time.Since(pushed).Round(time.Millisecond), w, n.LLen(key))
+				}
+			}
+			tick()
+		}
+	}
 	// (d) hand-off: every pushed element goes to exactly one waiter; pushes never block or fail
 	for round := 0; round < rounds; round++ {
 		keys := []string{fmt.Sprintf("bh%da", round), fmt.Sprintf("bh%db", round)}
@@ -1246,6 +1288,37 @@ func attackPayloads(r *rand.Rand) [][]byte {
 		[]byte("*3\r\n$3\r\nSET\r\n$1\r\nk\r\n"), // truncated
 		[]byte("*1\r\n$4\r\nPING"), []byte("*1\r\n$4\r\nPINGxx"), []byte("*1\r\n$0\r\n\r\n"),
 		bytesRepeat("*1\r\n$4\r\nPING\r\n", 2000), bytesRepeat("\r\n", 5000), bytesRepeat("a", 100000), bytesRepeat("* ", 3000),
+	}
+	// counts, offsets and lengths of every size against keys of the matching type: whatever the
+	// client announces must not be allocated or looped over
+	huge := []string{"100000000000", "-100000000000", "2147483648", "4294967296", "-4294967296", "4611686018427387904", "9223372036854775807", "-9223372036854775808", "1000000000", "-1000000000"}
+	sized := [][]string{
+		{"SPOP", "sk", "#"}, {"SRANDMEMBER", "sk", "#"}, {"LPOP", "ak", "#"}, {"RPOP", "ak", "#"}, {"LRANGE", "ak", "#", "#"}, {"LRANGE", "ak", "0", "#"}, {"LTRIM", "ak", "#", "#"},
+		{"LINDEX", "ak", "#"}, {"LSET", "ak", "#", "x"}, {"LREM", "ak", "#", "a"}, {"ZRANGE", "zk", "#", "#"}, {"ZRANGE", "zk", "0", "#"}, {"ZREVRANGE", "zk", "#", "#"},
+		{"ZRANGEBYSCORE", "zk", "-inf", "+inf", "LIMIT", "#", "#"}, {"ZRANGEBYSCORE", "zk", "-inf", "+inf", "LIMIT", "0", "#"}, {"ZREMRANGEBYRANK", "zk", "#", "#"},
+		{"SCAN", "#"}, {"SCAN", "0", "COUNT", "#"}, {"SSCAN", "sk", "#", "COUNT", "#"}, {"SSCAN", "sk", "0", "COUNT", "#"}, {"HSCAN", "hk", "0", "COUNT", "#"}, {"ZSCAN", "zk", "0", "COUNT", "#"},
+		{"GETRANGE", "k", "#", "#"}, {"GETRANGE", "k", "0", "#"}, {"SETRANGE", "k", "#", "x"}, {"SETBIT", "k", "#", "1"}, {"GETBIT", "k", "#"}, {"BITCOUNT", "k", "#", "#"},
+		{"INCRBY", "k", "#"}, {"HINCRBY", "hk", "f", "#"}, {"EXPIRE", "k", "#"}, {"PEXPIRE", "k", "#"}, {"EXPIREAT", "k", "#"}, {"SETEX", "k2", "#", "v"},
+		{"ZINCRBY", "zk", "#", "a"}, {"ZADD", "zk", "#", "m"}, {"BLPOP", "nokey", "#"}, {"GEORADIUS", "gk", "1", "1", "#", "km"}, {"ZUNIONSTORE", "d", "#", "zk"}, {"ZINTERSTORE", "d", "#", "zk"},
+		{"HRANDFIELD", "hk", "#"}, {"LPOS", "ak", "a", "COUNT", "#"}, {"COPY", "k", "#"}, {"SELECT", "#"},
+	}
+	for _, tpl := range sized {
+		for _, h := range huge {
+			if (tpl[0] == "SETBIT" || tpl[0] == "SETRANGE") && len(h) <= 10 && h[0] != '-' {
+				// within the protocol's 512 MiB limit these legitimately create a value of hundreds
+				// of megabytes, after which every command on that key is slow: not an attack the
+				// property speaks about
+				continue
+			}
+			args := make([][]byte, len(tpl))
+			for i, a := range tpl {
+				if a == "#" {
+					a = h
+				}
+				args[i] = []byte(a)
+			}
+			p = append(p, encodeCommand(args))
+		}
 	}
 	// wrong arity / wrong numbers / wrong types for every command name, as well-formed RESP
 	names := []string{"GET", "SET", "SETEX", "GETRANGE", "SETRANGE", "INCRBY", "INCRBYFLOAT", "SETBIT", "BITCOUNT", "LPUSH", "LPOP", "LRANGE", "LINDEX", "LSET", "LTRIM", "LREM", "LINSERT",
